@@ -56,7 +56,7 @@ def gen(rng, tier):
     gs += [G.random_cnf(rng, rng.randint(2, 4), 2, rng.randint(2, 7)) for _ in range(60 if quick else 1500)]
     for g in gs:
         cases.append({'kind': 'cfg', 'X': g, 'ns': [0, 1, 2, 3]})
-    for c in C09.gen(rng, tier)[:(70 if quick else 1500)]:
+    for c in [x for x in C09.gen(rng, tier) if len(x['P']['Q']) <= 10][:(70 if quick else 1500)]:
         eps_push = any(t[1] == c['P']['eps'] and t[4] != c['P']['eps'] for t in c['P']['delta'])
         lim = min(c['limit'], 5) if eps_push else c['limit']
         cases.append({'kind': 'pda', 'X': c['P'], 'limit': lim, 'ns': ([0, 1, 2, 3] if len(c['P']['Sigma']) <= 1 else [0, 1, 2]) if not eps_push else [0, 1, 2][:3 - len(c['P']['Sigma']) + 1]})
